@@ -128,7 +128,7 @@ PROPS = {
     },
     "C06": {
         "title": "Node lifetime: reference counts are exact, nothing dangles, nothing leaks",
-        "rules": [rules_own.rule_own, callers_for("C06"), on_program(rules_sibling.rule_counter_width), on_program(rules_ct.rule_recycle_gate)],
+        "rules": [rules_own.rule_own, callers_for("C06"), on_program(rules_sibling.rule_counter_width), on_program(rules_ct.rule_recycle_gate), on_program(rules_sibling.rule_refcount_twins)],
         "explanation": STRUCTURAL + ". C06: link/unlink discipline — on every non-throwing path of every analysed function each node_handle reference is created, moved into exactly one owner and released exactly once; "
                        "nodes die and handles are recycled only from the last-unlink/last-uncache state machine.",
         "assumptions": ["values flowing through arrays/containers are untracked (possible miss, never an alarm)", "throwing paths are exempt (C06 excludes error paths)",
@@ -140,7 +140,7 @@ PROPS = {
     },
     "C07": {
         "title": "Compute tables are transparent: cached answers equal recomputed answers",
-        "rules": [on_program(r) for r in rules_ct.RULES] + [rules_ftype.rule_ct_slots, callers_for("C07"), on_program(rules_layer.rule_cache_before_rewrite), on_program(rules_sibling.rule_counter_width)],
+        "rules": [on_program(r) for r in rules_ct.RULES] + [rules_ftype.rule_ct_slots, callers_for("C07"), on_program(rules_layer.rule_cache_before_rewrite), on_program(rules_sibling.rule_counter_width), on_program(rules_sibling.rule_refcount_twins)],
         "explanation": STRUCTURAL + ". C07: a handle is recycled only at cache count zero (including the tail collapse of the handle array); a hit is returned only after the dead-entry scan said alive; "
                        "every NODE item is cache-counted on add and un-counted on delete (same sections), and consulted by the dead/stale scans; reordering clears the tables first.",
         "assumptions": ["that the key contains every input the result depends on is not decided (non-interference)", "equality of cached and recomputed answers as such is not decided"],
